@@ -50,18 +50,26 @@ ASSUMPTIONS = [
     'circuit; the qudit through which the operation is addressed is not varied independently',
     'ScanPartitioner refusing a circuit with a gate wider than the block size with its explicit RuntimeError '
     '("cannot handle gates larger than block size") is accepted when the circuit is left untouched',
+    'after the solver fixed every integer of a case, the pass and the oracle run with CrossHair\'s instruction '
+    'monitor switched off (harness/C08.py:native); only concrete values cross that boundary',
     'early-flush family: QuickPartitioner is handed a Circuit subclass that only counts get_slice calls made '
     'while the main loop iterates (observation only); reached counts exactly the paths that took the early flush',
 ]
 BOUNDS = {
-    'quick': 'Quick/Scan/Greedy: n<=3 ops (1/2/3-qudit gates) on 4 qudits, block 2-4; n<=3 with already-blocked ops '
-             'or barrier/measurement/reset on 3 qudits, block 2-3; Clustering: n<=3 on 3 qudits (1 round) and n<=2 on '
-             '4 qudits (2 rounds); GroupSingleQudit: same circuit families; ExtendBlockSize(2..3) after Quick / '
-             'GroupSingleQudit: n<=2-3 on 3 qudits; Quick early flush: 11 two-qudit ops on 6 qudits, 5 symbolic positions',
-    'thorough': 'all five passes: n<=5 two-qudit ops on 5 qudits; n<=4 mixed arity (1/2/3) on 5 qudits; n<=4 with '
-                'barrier-like / already-blocked ops on 4 qudits; reversed locations and gaps (one pop) for n<=3; block '
-                '2-4; Clustering up to 2 rounds; Quick early flush: 11 ops on 6 qudits with 8 symbolic positions '
-                '(3 variants each), block 2-3, plus one barrier-like op at a symbolic position',
+    'quick': 'per family every circuit of n ops x every ascending location x block size: Quick+Scan+GroupSingle and '
+             'Greedy: n<=3 ops of arity 1/2/3 on 4 qudits (block 2-4; Greedy 2-3), n<=3 incl. already-blocked ops on 3 '
+             'qudits (block 2-3), block size 4 on 3 qudits; Quick alone n<=4 two-qudit ops on 4 qudits; Quick+GroupSingle '
+             'with barrier/measurement/reset: n<=3 on 3-4 qudits (4 kind sets), n<=2 of all 11 kinds on 3 qudits (block '
+             '2-4); Scan/Greedy/Clustering with barriers n<=2; Clustering: n<=3 on 3 qudits (1 round, 2 free draws), n<=2 '
+             'on 4 qudits (2 rounds); ExtendBlockSize(2..3) after Quick/GroupSingle: n<=3 on 3 qudits; gaps (one pop) n<=3 '
+             'on 3 qudits; Quick early flush: 10-11 ops on 6 qudits, 5-6 symbolic positions x 3 variants, block 2-4',
+    'thorough': 'Quick+Scan+GroupSingle: n<=5 two-qudit ops on 5 qudits (block 3; block 2-4 for n<=4 and for n=5 on 4 '
+                'qudits), n<=4 mixed arity on 4 qudits (block 2-3), n<=3 mixed on 5 qudits (block 2-4), reversed '
+                'locations / gaps / already-blocked n<=3 on 4 qudits; Greedy: n<=4 two-qudit on 5 qudits, n<=4 mixed on 4 '
+                'qudits (first op 3-qudit), n<=3 otherwise; barrier families n<=4 on 3 qudits, n<=3 on 4-5 qudits; '
+                'Clustering n<=3 on 3-5 qudits, up to 2 rounds; ExtendBlockSize(2..4) after Quick/Scan/GroupSingle n<=3 on '
+                '4 qudits; block size > width; Quick early flush: 10-11 ops on 6 qudits with 8 symbolic positions x 3 '
+                'variants (block 2-4), and with one barrier-like op at a symbolic position',
 }
 OUTSIDE = ('gtqcp.py and tdag.py (distributed-aware partitioners: need remote-edge models, not claimed); circuits '
            'wider than 6 qudits / longer than the stated n; radix other than 2; block size > 4; location orders other '
@@ -143,52 +151,64 @@ def run_case(n: int, xs: list, bs: int, gp: int, ds: list, ex: int) -> bool:
 
 
 # Early flush of QuickPartitioner (`num_closed >= 5` inside the main loop).
-FLUSH_BASE = [(0, 1), (2, 3), (4, 5), (1, 2), (3, 4), (0, 5), (0, 1), (2, 3), (4, 5), (1, 2), (3, 4)]
 FLUSH_W = 6
+FLUSH_BASES = {
+    # ring pairs in layers: with block size 2 every layer closes the bins of the layer before
+    'pairs': [(0, 1), (2, 3), (4, 5), (1, 2), (3, 4), (0, 5), (0, 1), (2, 3), (4, 5), (1, 2), (3, 4)],
+    # interleaved triples: full 3-qudit bins are closed by the next layer for block sizes 2-4
+    'triples': [(0, 1, 2), (3, 4, 5), (2, 3, 4), (0, 1, 5), (0, 1, 2), (3, 4, 5), (2, 3, 4), (0, 1, 5), (0, 1, 2),
+                (3, 4, 5)],
+}
 
 
 def flush_case(vs: list, bs: int, bk: int, bp: int, bq: int) -> bool:
-    """11 operations on 6 qudits: ring pairs in 3+ layers. Position i (from SHARD['first'])
-    has a symbolic variant: 0 the base pair, 1 the pair shifted by one qudit, 2 a single-qudit
-    gate on the pair's first qudit. Optionally (SHARD['barrier']) one barrier-like operation of
-    symbolic kind (2-qudit barrier / reset / 6-qudit barrier) is inserted at a symbolic
-    position on a symbolic qudit."""
+    """10-11 operations on 6 qudits (SHARD['base']). Position i >= SHARD['first'] has a symbolic
+    variant: 0 the base location, 1 the location shifted by one qudit (mod 6), 2 a gate one
+    qudit narrower on the leading qudit(s). Optionally (SHARD['barrier']) one barrier-like
+    operation of symbolic kind (2-qudit barrier / reset / 6-qudit barrier) is inserted at a
+    symbolic position on a symbolic qudit. `reached` counts the paths on which the pending bins
+    were flushed inside the main loop."""
     rt.begin()
     S = rt.SHARD
     first = S['first']
     nv = S.get('variants', 3)
+    base = FLUSH_BASES[S.get('base', 'pairs')]
     specs = []
-    for i, (a, b) in enumerate(FLUSH_BASE):
+    for i, t in enumerate(base):
         v = 0
         if i >= first and i - first < len(vs):
             fixed = S.get('fix', {}).get(str(i))
             v = fixed if fixed is not None else rt.P(vs[i - first], 0, nv - 1)
         if v == 0:
-            specs.append((2, [a, b]))
+            loc = sorted(t)
         elif v == 1:
-            specs.append((2, sorted([(a + 1) % FLUSH_W, (b + 1) % FLUSH_W])))
+            loc = sorted((x + 1) % FLUSH_W for x in t)
         else:
-            specs.append((1, [a]))
+            loc = sorted(t)[:len(t) - 1]
+        specs.append((len(loc), loc))
     bsv = rt.P(bs, S['bs'][0], S['bs'][1])
     if S.get('barrier'):
-        kind = [7, 11, 0][rt.P(bk, 0, 2)]
+        kind = [7, 11, 12][rt.P(bk, 0, 2)]
         pos = rt.P(bp, 0, len(specs))
-        if kind == 0:
+        if kind == 12:
             specs.insert(pos, (12, list(range(FLUSH_W))))
         else:
             q = rt.P(bq, 0, FLUSH_W - 2)
             specs.insert(pos, (kind, [q, q + 1] if kind == 7 else [q]))
     spy: dict = {}
     fp = native(check_case, 'quick', FLUSH_W, specs, bsv, -1, None, 1, None, rt.log if rt.CONCRETE else None, spy)
-    if spy.get('early', 0) > 0:
-        rt.reach()          # reached = paths that exercised the early flush
+    early = spy.get('early', 0) > 0
+    if early:
+        rt.reach()
     if fp is None:
         return True
     if rt.CONCRETE:
         rt.log('violated:', fp, '| block size', bsv, 'specs (kind, location)', specs)
-    if not spy.get('early', 0):
+    if rt.fail(fp):
+        return True
+    if not early:
         rt.reach()
-    return rt.fail(fp)
+    return False
 
 
 def e1(k0: int, a0: int, b0: int, c0: int, r0: int, bs: int, gp: int, d0: int, d1: int, d2: int, d3: int,
@@ -271,7 +291,9 @@ def obligations(tier: str) -> list[dict]:
         sh.update(kw)
         extra = ''.join('/%s%s' % (k, '' if v is True else str(v).replace(' ', '').replace("'", ''))
                         for k, v in sorted(kw.items()))
-        obs.append({'name': 'quick/earlyflush/first%d/bs%d-%d%s' % (first, bs[0], bs[1], extra), 'func': 'fl',
+        obs.append({'name': 'quick/earlyflush-%s/first%d/bs%d-%d%s' % (kw.get('base', 'pairs'), first, bs[0], bs[1],
+                                                                      extra.replace('/base' + str(kw.get('base')), '')),
+                    'func': 'fl',
                     'shard': sh, 'timeout': timeout})
 
     QSS = ['quick', 'scan', 'single']     # share a path: same realised circuit, each pass on its own copy
@@ -285,12 +307,15 @@ def obligations(tier: str) -> list[dict]:
         for b in (2, 3):
             ob(GR, 4, 3, G, [b, b], T, 'gates')
         ob(['quick'], 4, 4, [2], [2, 3], T, 'twoq')
-        ob(QSS, 3, 3, GB, [2, 3], T, 'blocked')
-        ob(GR, 3, 3, GB, [2, 3], T, 'blocked')
-        ob(QS, 3, 2, ALLK, [2, 3], T, 'allkinds')
-        ob(QS, 3, 3, BA, [2, 3], T, 'barriers-a')
-        ob(QS, 3, 3, BB, [2, 3], T, 'barriers-b')
+        ob(QS, 3, 2, ALLK, [2, 4], T, 'allkinds')
+        ob(['quick', 'scan'], 3, 3, G + [4, 5], [4, 4], T, 'wideblock')
+        ob(GR, 3, 2, G, [4, 4], T, 'wideblock')
+        ob(CL, 3, 2, G, [4, 4], T, 'wideblock')
         for b in (2, 3):
+            ob(QSS, 3, 3, GB, [b, b], T, 'blocked')
+            ob(GR, 3, 3, GB, [b, b], T, 'blocked')
+            ob(QS, 3, 3, BA, [b, b], T, 'barriers-a')
+            ob(QS, 3, 3, BB, [b, b], T, 'barriers-b')
             ob(QS, 4, 3, BC, [b, b], T, 'barriers-c')
         ob(['scan'], 3, 2, BA, [2, 2], T, 'barriers-a')
         ob(GR, 3, 2, BA, [2, 2], T, 'barriers-a')
@@ -303,7 +328,8 @@ def obligations(tier: str) -> list[dict]:
         ob(QS, 3, 3, [1, 2, 4], [2, 2], T, 'then-extend', extend=[2, 3])
         ob(['single'], 3, 2, [1, 2, 4, 7], [1, 1], T, 'then-extend', extend=[2, 3])
         ob(QSS, 3, 3, [1, 2], [2, 3], T, 'gaps', pop=True)
-        flush(6, [2, 3], T)
+        flush(5, [2, 2], T)
+        flush(5, [2, 4], T, base='triples')
         return obs
 
     T = 3000
@@ -322,6 +348,10 @@ def obligations(tier: str) -> list[dict]:
     ob(QSS, 4, 3, G, [2, 3], T, 'rev', rev=True)
     ob(QSS, 4, 3, G, [2, 3], T, 'gaps', pop=True)
     ob(QS, 3, 3, ALLK, [2, 3], T, 'allkinds')
+    ob(['quick', 'scan'], 3, 4, G + [4, 5], [4, 4], T, 'wideblock')
+    ob(['quick', 'scan'], 4, 3, G + [4, 5], [5, 5], T, 'wideblock')
+    ob(GR, 3, 3, G + [4, 5], [4, 4], T, 'wideblock')
+    ob(CL, 3, 3, G, [4, 4], T, 'wideblock')
     ob(QS, 3, 4, BA, [2, 3], T, 'barriers-a')
     ob(QS, 4, 3, BA, [2, 3], T, 'barriers-a')
     ob(QS, 4, 3, BB, [2, 3], T, 'barriers-b')
@@ -344,7 +374,8 @@ def obligations(tier: str) -> list[dict]:
     ob(QS, 4, 3, [1, 2, 7, 11], [2, 2], T, 'then-extend', extend=[2, 3])
     ob(['single'], 4, 3, [1, 2, 4, 7], [1, 1], T, 'then-extend', extend=[2, 4])
     ob(['scan'], 4, 3, [1, 2], [2, 3], T, 'then-extend', extend=[2, 4])
-    for v in (0, 1, 2):
-        flush(3, [2, 3], T, fix={'3': v})
+    flush(3, [2, 2], T)
+    flush(2, [2, 4], T, base='triples')
     flush(4, [2, 2], T, barrier=True, variants=2)
+    flush(5, [2, 3], T, barrier=True, variants=2, base='triples')
     return obs
